@@ -58,6 +58,7 @@ class BadReg(torch.nn.ReLU):
 
 class TripAct(torch.nn.Module):
     def forward(self, x):
+        tick("actforward")           # a failure INSIDE a hooked activation: its pre-forward hook has run, its forward hook has not
         return torch.nn.functional.relu(x) + 0.1 * x
 
 
@@ -137,6 +138,9 @@ def alpha(model):
     return dict(hooks=nh, sd=sd, po=po, pg=pg, training=bool(was[0]), modes=was)
 
 
+_ALT = [0, 0]
+
+
 def plan(func, crash):
     """crash = [run, kind, batch] -> (trips, call variations) or None when the point cannot be injected from outside."""
     r, kind, b = crash
@@ -149,6 +153,8 @@ def plan(func, crash):
     if b > prog[r - 1][1]:
         return None
     if kind == "forward":
+        if (_ALT[0] + r + b) % 2:          # the same step failing inside a hooked activation instead of at the top of the model
+            return {"actforward": before + b}, var
         return {"forward": before + b}, var
     if kind == "backward":
         return {"backward": hbefore + b}, var
@@ -166,7 +172,10 @@ def plan(func, crash):
         var["int_x"] = True
         return {}, var
     if kind == "delta" and r == 1 and b == 1:
-        var["bad_target"] = True
+        if _ALT[0] % 2:          # the convergence warning itself, turned into an error by the caller's warning filter
+            var["warn_error"] = True
+        else:
+            var["bad_target"] = True
         return {}, var
     return None
 
@@ -176,6 +185,8 @@ def do_call(model, func, var):
     dkw = dict(n_shuffles=2, references=ref_fn, additional_nonlinear_ops=OPS)
     if var.get("bad_target"):
         dkw["target"] = 5
+    if var.get("warn_error"):
+        dkw["warning_threshold"] = -1.0
     args = None
     if "short_args" in var:
         args = (torch.arange(var["short_args"], dtype=torch.float32),)
@@ -228,7 +239,11 @@ def run_one(model, func, crash):
         return orig(*a, **k)
     dls_mod.hypothetical_attributions = tripping_hyp
     try:
-        res = do_call(model, func, var)
+        import warnings
+        with warnings.catch_warnings():
+            if var.get("warn_error"):
+                warnings.simplefilter("error")
+            res = do_call(model, func, var)
         out, d = "returned", digest(res)
     except Exception as e:
         out, d = "raised", base.crc(type(e).__name__.encode())
@@ -264,7 +279,8 @@ def run_history(hist):
     a0 = alpha(shared)
     evs = []
     before = a0["modes"]
-    for (func, crash) in hist:
+    for hi, (func, crash) in enumerate(hist):
+        _ALT[0] = base.crc(repr(hist).encode()) + hi          # which realisation of a crash point: the same for the fresh and the shared run
         fresh = base_model(kind)          # never ran a forward pass: whatever it builds lazily is built inside the call
         rf = run_one(fresh, func, crash)
         if rf is None:
